@@ -5,11 +5,13 @@ sys.path.insert(0, os.path.dirname(os.path.dirname(os.path.abspath(__file__))))
 from vlib import extract, mir
 names = set()
 mods = set()
+traits = set()
 for c in extract.CONFIGS:
     d, m = extract.extract(c)
     mods.update(d.get("mods", []))
+    traits.update(d.get("traits", []))
     for f in d["fns"]:
         names.add(f["path"]); names.add(mir.strip_generics(f["path"]))
-json.dump({"comment": "function inventory of the reference tree, all configurations", "functions": sorted(names), "modules": sorted(mods)},
+json.dump({"comment": "function inventory of the reference tree, all configurations", "functions": sorted(names), "modules": sorted(mods), "traits": sorted(traits)},
           open(os.path.join(os.path.dirname(os.path.dirname(os.path.abspath(__file__))), "tables", "known_fns.json"), "w"), indent=0)
 print(len(names), "functions")
